@@ -63,7 +63,7 @@ Theorem version_mismatch_fails : forall v g pi s c, valid_load v g pi s -> reach
   f_version (file_of g c) <> f_version (file_of g (root_of g)) -> f_err (merge_all v g pi s) <> None.
 Proof.
   intros v g pi s c Hl Hr Hv Herr. pose proof (valid_load_good v g pi s Hl) as Hgo.
-  rewrite (merge_all_raw v g pi s (vl_pi _ _ _ _ Hl)), finish_err in Herr. unfold raw_state in Herr.
+  rewrite (merge_all_raw v g pi s (vl_copy _ _ _ _ Hl) (vl_pi _ _ _ _ Hl)), finish_err in Herr. unfold raw_state in Herr.
   destruct (reach_ok v g _ Hgo _ _ Hr Herr) as [_ H]. contradiction.
 Qed.
 
@@ -71,7 +71,7 @@ Theorem dotenv_fails : forall v g pi s p e, valid_load v g pi s -> reach g (root
   f_dotenv (file_of g (snd e)) = true -> f_err (merge_all v g pi s) <> None.
 Proof.
   intros v g pi s p e Hl Hr He Hd Herr. pose proof (valid_load_good v g pi s Hl) as Hgo.
-  rewrite (merge_all_raw v g pi s (vl_pi _ _ _ _ Hl)), finish_err in Herr. unfold raw_state in Herr.
+  rewrite (merge_all_raw v g pi s (vl_copy _ _ _ _ Hl) (vl_pi _ _ _ _ Hl)), finish_err in Herr. unfold raw_state in Herr.
   destruct (reach_ok v g _ Hgo _ _ Hr Herr) as [E _]. destruct (edge_ok v g _ Hgo p e He E) as (_ & _ & H). congruence.
 Qed.
 
@@ -225,7 +225,7 @@ Theorem abort_iff_flag : forall v g pi s, valid_load v g pi s -> g <> [] -> all_
   (merge_err v g pi s = None <-> f_err (merge_all v g pi s) = None).
 Proof.
   intros v g pi s Hl Hne Hreach. pose proof (valid_load_good v g pi s Hl) as Hgo.
-  rewrite (merge_all_raw v g pi s (vl_pi _ _ _ _ Hl)), finish_err. unfold raw_state, merge_err. split.
+  rewrite (merge_all_raw v g pi s (vl_copy _ _ _ _ Hl) (vl_pi _ _ _ _ Hl)), finish_err. unfold raw_state, merge_err. rewrite (vl_copy _ _ _ _ Hl). split.
   - (* no failing merge: nothing carries a flag; but the root could be missing from g *)
     intro H. destruct (first_err_ops v (ops_of v g pi s) (init_state g)) eqn:E; [discriminate|].
     (* states outside the vertices are never touched; restrict to vertices via a stronger induction *)
